@@ -219,9 +219,18 @@ func handleRequest(clientID string, req *ntp.Packet, rxt, txt *time.Time, resp *
 	}
 }
 
-func updateTXTimestamp(clientID string, rxt time.Time, txt *time.Time) {
+// updateTXTimestamp replaces the software tx timestamp txt0 that handleRequest
+// put on record for the exchange received at rxt by the kernel tx timestamp
+// *txt, or drops the exchange if *txt is still txt0, i.e., no kernel tx
+// timestamp could be read.
+func updateTXTimestamp(clientID string, rxt, txt0 time.Time, txt *time.Time) {
 	tssMu.Lock()
 	defer tssMu.Unlock()
+
+	// the value on record for this exchange: it tells the exchange from a later
+	// one that is kept under the same rx timestamp after this one has left the
+	// store (rx timestamps are distinct among the values on record only)
+	txt064 := ntp.Time64FromTime(txt0)
 
 	// the value passed back unchanged by a listener that could not read a
 	// kernel tx timestamp, i.e., before it is adjusted for monotonicity below
@@ -249,8 +258,8 @@ func updateTXTimestamp(clientID string, rxt time.Time, txt *time.Time) {
 				max1 = i
 			}
 		}
-		if x != -1 {
-			if tssi.buf[x].txt != txt64in {
+		if x != -1 && tssi.buf[x].txt == txt064 {
+			if txt64in != txt064 {
 				tssi.buf[x].txt = txt64
 			} else {
 				// No updated tx timestamp available
